@@ -6,6 +6,9 @@
 //!   cvx list
 
 mod checks;
+mod lower;
+mod progcheck;
+mod realrun;
 
 use cvx_core::engine::{self, Check, Tier};
 
